@@ -107,3 +107,74 @@ fn c14s_pipeline_witness() {
     let _ = ShaderPackage::build_selector(&k);
     assert!(false);
 }
+
+// =================================================================================================
+// C14: ShaderPackage::from_existing on a generated minimal package: no shaders / resource
+// parameters, 1 material parameter, 1 system key, 1 material key, 3 nodes (1 pass each), 1 alias.
+// Counts are concrete (shape); every id / key / selector / pass field / alias target is symbolic.
+// =================================================================================================
+const SP_NODES: usize = 104;
+const SP_NODE: usize = 52;
+const SP_ALIAS: usize = SP_NODES + 3 * SP_NODE; // 260
+const SP_TOTAL: usize = SP_ALIAS + 8;
+fn sp_le32(b: &[u8; SP_TOTAL], o: usize) -> u32 { u32::from_le_bytes([b[o], b[o + 1], b[o + 2], b[o + 3]]) }
+fn sp_le16(b: &[u8; SP_TOTAL], o: usize) -> u16 { u16::from_le_bytes([b[o], b[o + 1]]) }
+fn sp_set32(b: &mut [u8; SP_TOTAL], o: usize, v: u32) { let x = v.to_le_bytes(); b[o] = x[0]; b[o + 1] = x[1]; b[o + 2] = x[2]; b[o + 3] = x[3]; }
+fn sp_set16(b: &mut [u8; SP_TOTAL], o: usize, v: u16) { let x = v.to_le_bytes(); b[o] = x[0]; b[o + 1] = x[1]; }
+
+#[kani::proof]
+#[kani::unwind(20)]
+#[kani::stub(core::str::validations::run_utf8_validation, crate::verif_support::refs::ascii_utf8_validation)]
+fn c14_shader_package_from_existing() {
+    let mut b: [u8; SP_TOTAL] = kani::any();
+    b[0] = b'S'; b[1] = b'h'; b[2] = b'P'; b[3] = b'k';
+    b[8] = b'D'; b[9] = b'X'; b[10] = b'1'; b[11] = b'1';
+    sp_set32(&mut b, 24, 0); sp_set32(&mut b, 28, 0);          // no vertex / pixel shaders
+    sp_set16(&mut b, 36, 1);                                     // one material parameter
+    sp_set16(&mut b, 38, 0);                                     // no defaults
+    sp_set16(&mut b, 40, 0); sp_set16(&mut b, 44, 0); sp_set16(&mut b, 46, 0); sp_set16(&mut b, 48, 0);
+    sp_set32(&mut b, 52, 1); sp_set32(&mut b, 56, 0); sp_set32(&mut b, 60, 1); // system / scene / material key counts
+    sp_set32(&mut b, 64, 3); sp_set32(&mut b, 68, 1);          // nodes, aliases
+    let mut n = 0;
+    while n < 3 { sp_set32(&mut b, SP_NODES + n * SP_NODE + 4, 1); n += 1; } // one pass per node
+    let target = sp_le32(&b, SP_ALIAS + 4);
+    kani::assume(target <= 3);                                   // 3 = one past the last node
+    let pkg = ShaderPackage::from_existing(&b).unwrap();
+    // header scalars and tables
+    assert_eq!(pkg.version, sp_le32(&b, 4));
+    assert!(pkg.format.as_bytes() == b"DX11");
+    assert_eq!(pkg.material_parameters_size, sp_le32(&b, 32));
+    assert_eq!(pkg.material_parameters.len(), 1);
+    assert_eq!((pkg.material_parameters[0].id, pkg.material_parameters[0].byte_offset, pkg.material_parameters[0].byte_size), (sp_le32(&b, 72), sp_le16(&b, 76), sp_le16(&b, 78)));
+    assert_eq!((pkg.system_keys.len(), pkg.scene_keys.len(), pkg.material_keys.len()), (1, 0, 1));
+    assert_eq!((pkg.system_keys[0].id, pkg.system_keys[0].default_value), (sp_le32(&b, 80), sp_le32(&b, 84)));
+    assert_eq!((pkg.material_keys[0].id, pkg.material_keys[0].default_value), (sp_le32(&b, 88), sp_le32(&b, 92)));
+    assert_eq!((pkg.sub_view_key1_default, pkg.sub_view_key2_default), (sp_le32(&b, 96), sp_le32(&b, 100)));
+    // nodes
+    assert_eq!(pkg.nodes.len(), 3);
+    let k: usize = kani::any();
+    kani::assume(k < 3);
+    let o = SP_NODES + k * SP_NODE;
+    let nd = &pkg.nodes[k];
+    assert_eq!(nd.selector, sp_le32(&b, o));
+    assert_eq!(nd.pass_indices[0], b[o + 8]);
+    assert_eq!(nd.pass_indices[15], b[o + 23]);
+    assert_eq!((nd.system_keys.len(), nd.scene_keys.len(), nd.material_keys.len(), nd.subview_keys.len(), nd.passes.len()), (1, 0, 1, 2, 1));
+    assert_eq!(nd.system_keys[0], sp_le32(&b, o + 24));
+    assert_eq!(nd.material_keys[0], sp_le32(&b, o + 28));
+    assert_eq!((nd.subview_keys[0], nd.subview_keys[1]), (sp_le32(&b, o + 32), sp_le32(&b, o + 36)));
+    assert_eq!((nd.passes[0].id, nd.passes[0].vertex_shader, nd.passes[0].pixel_shader), (sp_le32(&b, o + 40), sp_le32(&b, o + 44), sp_le32(&b, o + 48)));
+    // selector resolution: nodes in order, then the alias; an alias naming a missing node resolves to nothing
+    let q: u32 = kani::any();
+    let (s0, s1, s2, sa) = (sp_le32(&b, SP_NODES), sp_le32(&b, SP_NODES + SP_NODE), sp_le32(&b, SP_NODES + 2 * SP_NODE), sp_le32(&b, SP_ALIAS));
+    let want: Option<usize> = if q == s0 { Some(0) } else if q == s1 { Some(1) } else if q == s2 { Some(2) } else if q == sa && target < 3 { Some(target as usize) } else { None };
+    match (pkg.find_node(q), want) {
+        (Some(nref), Some(i)) => assert!(core::ptr::eq(nref, &pkg.nodes[i])),
+        (None, None) => {}
+        _ => panic!("selector resolved to the wrong answer"),
+    }
+    kani::cover!(q == sa && q != s0 && q != s1 && q != s2 && target == 2);
+    kani::cover!(q == sa && q != s0 && q != s1 && q != s2 && target == 3);
+    kani::cover!(q == s1 && q != s0);
+    core::mem::forget(pkg);
+}
